@@ -995,6 +995,14 @@ def parse_file(path):
                     p.skip_group("(", ")")
             while p.at("const") and p.at("fn", 1) or p.at("unsafe") or p.at("async"):
                 p.next()
+            if p.peek()[0] == "id" and p.peek()[1] in macros and not macros[p.peek()[1]][0] and p.at("!", 1) and p.at("(", 2) and p.at(")", 3):
+                # item-level invocation of a parameterless macro_rules macro (`impl_datetime!();`): its body is spliced
+                # in place and parsed as items of the enclosing impl block
+                end = p.i + 4
+                if p.t[end] == ("op", ";"):
+                    end += 1
+                p.t[p.i:end] = macros[p.peek()[1]][1]
+                continue
             if p.at("fn"):
                 parse_fn(prefix)
             elif p.at("macro_rules"):
@@ -3450,6 +3458,12 @@ CONFIG = {
         ("src/datetime/mod.rs", {
             # equality and ordering of zoned date-times (impl PartialEq / PartialOrd)
             "DateTime.eq": {}, "DateTime.partial_cmp": {}, "DateTime.unix_time": {},
+            # the getters generated by impl_datetime!() for both date-time types
+            "UtcDateTime.year": {}, "UtcDateTime.month": {}, "UtcDateTime.month_day": {}, "UtcDateTime.hour": {}, "UtcDateTime.minute": {},
+            "UtcDateTime.second": {}, "UtcDateTime.nanoseconds": {}, "UtcDateTime.week_day": {}, "UtcDateTime.year_day": {}, "UtcDateTime.total_nanoseconds": {},
+            "DateTime.year": {}, "DateTime.month": {}, "DateTime.month_day": {}, "DateTime.hour": {}, "DateTime.minute": {},
+            "DateTime.second": {}, "DateTime.nanoseconds": {}, "DateTime.week_day": {}, "DateTime.year_day": {}, "DateTime.total_nanoseconds": {},
+            "DateTime.local_time_type": {},
         }),
         ("src/datetime/mod.rs", {
             "format_date_time": {"out_param": "f", "out_kind": "fmt"},
